@@ -26,7 +26,7 @@ ASSUMPTIONS = [
     "Device wires are declared as 0..n-1 and every wire is acted on, so that wire-less measurements have a defined size.",
     "Combinations rejected with DeviceError / QuantumFunctionError / the documented ValueErrors of gradient transforms are not compared.",
 ]
-BUDGET = {"quick": {"examples": 330, "min_nontrivial": 60}, "thorough": {"examples": 20000, "shards": 16, "min_nontrivial": 1500}}
+BUDGET = {"quick": {"examples": 330, "min_nontrivial": 60}, "thorough": {"examples": 5000, "shards": 8, "min_nontrivial": 1500}}
 SHRINK_LISTS = ("tapes", "meas", "ops")
 
 DEVICES = ["default.qubit", "default.qubit", "default.mixed", "reference.qubit", "null.qubit"]
